@@ -778,6 +778,29 @@ func (p *PikeVM) SearchAt(haystack []byte, at int) (int, int, bool) {
 	return p.searchUnanchoredAt(haystack, at)
 }
 
+// SearchAtAnchored finds the match that STARTS exactly at position 'at'.
+// Returns (at, end, true) with the leftmost-first (or, with SetLongest, longest)
+// end of that match, or (-1, -1, false) if no match starts at 'at'.
+//
+// Unlike SearchAt it never tries a later start position, whether or not the NFA
+// was compiled as anchored. Like SearchAt it takes the FULL haystack, so
+// look-around at 'at' sees the bytes before it.
+func (p *PikeVM) SearchAtAnchored(haystack []byte, at int) (int, int, bool) {
+	p.ensureInternalState()
+	if at > len(haystack) {
+		return -1, -1, false
+	}
+
+	if at == len(haystack) {
+		if p.matchesEmptyAt(haystack, at) {
+			return at, at, true
+		}
+		return -1, -1, false
+	}
+
+	return p.searchAt(haystack, at)
+}
+
 // searchUnanchoredAt implements Thompson's parallel NFA simulation for unanchored search.
 // This is used by SearchAt to correctly handle anchors when searching from non-zero positions.
 //
